@@ -17,7 +17,7 @@ func init() {
 			"NOT decided (no sound static argument in reach relates two executions): independence from chunk size and parallelism of every operator, fill/limit/offset semantics, merge order, descending = reversed ascending, conformance with the documented semantics.",
 		Assumptions: commonAssumptions,
 		Technique:   "static analysis: must-follow pairing on go/cfg over all call sites, sibling agreement of the rewrite bodies, predicate-shape (truth-table) and guard (control-dependence) rules over every Window()/pass-through site of the executor",
-		Rules:       "C08.R1 R2 R3",
+		Rules:       "C08.R1 R2 R3 R4 R5",
 	}
 	All["C18"] = &Prop{
 		Run: c18,
@@ -121,6 +121,170 @@ func c08(c *an.Ctx) {
 	r2.Floor(5, "CountToSum implementations")
 	c08Window(c)
 	c08PassThrough(c)
+	c08PendingPoint(c)
+	c08EveryRow(c)
+}
+
+// c08EveryRow — C08.R5.  LimitTransform.SameGroup(i) advances the tag cursor only when i is
+// EXACTLY the first row of the next tag group, so it must see every row (or every interval
+// start) of the chunk in order, from index 0.  A loop that starts further in — e.g. to jump
+// over the rows covered by OFFSET — leaves the tag cursor behind when it jumps over a group
+// start inside a chunk: the surviving rows are emitted under the wrong series, and only for
+// chunk sizes where a group boundary falls inside the jump.
+func c08EveryRow(c *an.Ctx) {
+	const X = "engine/executor"
+	r := c.Rule("C08.R5", "K-LOOPSELECT", "LimitTransform: the loops that feed SameGroup start at index 0 and pass every index to it")
+	sg := obj(r, X+":LimitTransform.SameGroup")
+	if sg == nil {
+		return
+	}
+	n := 0
+	for _, cs := range c.P.CallsTo(sg) {
+		if cs.Caller == nil {
+			continue
+		}
+		f := c.P.Fn(cs.Caller)
+		if f == nil {
+			continue
+		}
+		var loop *ast.ForStmt
+		for p := f.Parent(cs.Call); p != nil; p = f.Parent(p) {
+			if l, ok := p.(*ast.ForStmt); ok {
+				loop = l
+				break
+			}
+		}
+		if loop == nil {
+			continue
+		}
+		n++
+		key := cs.Caller.Name() + ": SameGroup loop"
+		// the loop index: the local integer variable the argument of SameGroup is built from
+		var iv *types.Var
+		if len(cs.Call.Args) == 1 {
+			ast.Inspect(cs.Call.Args[0], func(k ast.Node) bool {
+				if id, ok := k.(*ast.Ident); ok && iv == nil {
+					if v, ok := f.Info.Uses[id].(*types.Var); ok && !v.IsField() && v.Parent() != v.Pkg().Scope() {
+						if b, isB := v.Type().Underlying().(*types.Basic); isB && b.Info()&types.IsInteger != 0 {
+							iv = v
+						}
+					}
+				}
+				return true
+			})
+		}
+		if iv == nil {
+			r.Fail(key, c.P.Pos(cs.Call.Pos()), "SameGroup is not called with a loop index")
+			continue
+		}
+		// its definition (loop init or the statement before the loop) is the constant 0
+		var def ast.Expr
+		ast.Inspect(f.Body, func(k ast.Node) bool {
+			if as, ok := k.(*ast.AssignStmt); ok && as.Tok.String() == ":=" && len(as.Lhs) == len(as.Rhs) {
+				for i, l := range as.Lhs {
+					if id, ok := l.(*ast.Ident); ok && f.Info.Defs[id] == iv {
+						def = as.Rhs[i]
+					}
+				}
+			}
+			return true
+		})
+		if def == nil {
+			r.Fail(key, c.P.Pos(loop.Pos()), "the index of the loop feeding SameGroup has no `:= 0` definition")
+			continue
+		}
+		if tv, has := f.Info.Types[def]; !has || tv.Value == nil || tv.Value.String() != "0" {
+			r.Fail(key, c.P.Pos(def.Pos()), "the loop feeding SameGroup starts at %s, not at 0: group starts before that index never reach SameGroup and the tag cursor stays behind", f.Canon(def))
+			continue
+		}
+		// no iteration skips the call
+		one := &an.Sites{F: f, Desc: "SameGroup(i)", List: []an.Site{{V: f.VertexOf(cs.Call), Node: cs.Call}}}
+		f.LoopSelectsAll(r, one, "every index of the loop reaches SameGroup")
+	}
+	r.AddSites(n)
+	r.Floor(4, "loops feeding LimitTransform.SameGroup")
+}
+
+// c08PendingPoint — C08.R4.  The column aggregate iterators (count/sum/min/max/first/last …)
+// carry the partial aggregate of the window that straddles a chunk boundary in `prevPoint`.
+// Their shortcut for an input column without values answers "nil for every window this chunk
+// closes" and returns — correct only if no partial aggregate is pending (prevPoint.isNil);
+// otherwise the pending window comes out nil and its value is folded into a later window,
+// depending on where the chunk boundary fell.  All sibling iterators must keep that conjunct.
+func c08PendingPoint(c *an.Ctx) {
+	const X = "engine/executor"
+	r := c.Rule("C08.R4", "K-SIBLING", "aggregate iterators with a pending point: the empty-input shortcut (nil windows, early return) only when prevPoint.isNil")
+	n := 0
+	for _, d := range c.P.AllDecls() {
+		if !an.InPkg(d, X) || d.Obj.Name() != "Next" || d.Decl.Recv == nil {
+			continue
+		}
+		sig := d.Obj.Type().(*types.Signature)
+		rt := sig.Recv().Type()
+		if p, ok := rt.(*types.Pointer); ok {
+			rt = p.Elem()
+		}
+		st, ok := rt.Underlying().(*types.Struct)
+		if !ok {
+			continue
+		}
+		has := false
+		for i := 0; i < st.NumFields(); i++ {
+			if st.Field(i).Name() == "prevPoint" {
+				has = true
+			}
+		}
+		if !has {
+			continue
+		}
+		f := c.P.Fn(d)
+		if f == nil {
+			continue
+		}
+		// the shortcut: a branch on <col>.IsEmpty() whose taken side returns without reading prevPoint
+		for _, v := range f.G.Vs {
+			if !v.IsCond {
+				continue
+			}
+			isEmptyTrue := false
+			for _, a := range f.Implied(v.Cond, true) {
+				if a.Pos && strings.HasSuffix(a.Key, ".IsEmpty()") {
+					isEmptyTrue = true
+				}
+			}
+			if !isEmptyTrue {
+				continue
+			}
+			n++
+			pending := false
+			for _, a := range f.Implied(v.Cond, true) {
+				if a.Pos && a.Key == "recv.prevPoint.isNil" {
+					pending = true
+				}
+			}
+			// does the taken side reach the exit without touching prevPoint?  (otherwise it is not the shortcut)
+			touch := map[int]bool{}
+			for _, w := range f.G.Vs {
+				if w.Kind != an.VNode || w.Node == nil || w.ID == v.ID {
+					continue
+				}
+				ast.Inspect(w.Node, func(k ast.Node) bool {
+					if sel, ok := k.(*ast.SelectorExpr); ok && sel.Sel.Name == "prevPoint" {
+						touch[w.ID] = true
+					}
+					return true
+				})
+			}
+			if f.FPath([]int{v.TrueSucc}, f.G.Exit, touch, nil) == nil {
+				continue
+			}
+			if !pending {
+				r.Fail(d.Name()+": shortcut ignores the pending point", c.P.Pos(v.Node.Pos()), "%s answers nil windows and returns when the input column is empty without testing prevPoint.isNil: a partial aggregate carried over from the previous chunk is dropped from its window", d.Name())
+			}
+		}
+	}
+	r.AddSites(n)
+	r.Floor(5, "empty-input shortcuts of iterators with a pending point")
 }
 
 // c08PassThrough — C08.R3.  The sorted k-way merges consume their inputs ROW by
